@@ -4,6 +4,16 @@ From FoxGen Require Import GoSem GenFuns.
 From Coq Require Import Lia ZArith.
 Open Scope Z_scope.
 
+(* destruct every integer comparison that occurs in the goal, whatever operator the Go text uses
+   (status < 300 and status <= 299 are the same function: the proof must not depend on the spelling) *)
+Ltac zcmp := repeat match goal with
+  | |- context[Z.geb ?a ?b] => destruct (Z.geb_spec a b)
+  | |- context[Z.gtb ?a ?b] => destruct (Z.gtb_spec a b)
+  | |- context[Z.leb ?a ?b] => destruct (Z.leb_spec a b)
+  | |- context[Z.ltb ?a ?b] => destruct (Z.ltb_spec a b)
+  | |- context[Z.eqb ?a ?b] => destruct (Z.eqb_spec a b)
+  end.
+
 (* slog.LevelDebug = -4, LevelInfo = 0, LevelWarn = 4, LevelError = 8 (log/slog) *)
 Lemma level_classes_gen : forall s : Z,
   (200 <= s < 300 -> gen_level s = 0) /\
@@ -13,7 +23,5 @@ Lemma level_classes_gen : forall s : Z,
   (s < 200 -> gen_level s = 0).
 Proof.
   intro s. unfold gen_level.
-  repeat split; intro H;
-    destruct (Z.geb_spec s 200), (Z.ltb_spec s 300), (Z.geb_spec s 300), (Z.ltb_spec s 400),
-             (Z.geb_spec s 400), (Z.ltb_spec s 500), (Z.geb_spec s 500); cbn; try reflexivity; lia.
+  repeat split; intro H; zcmp; cbn; try reflexivity; lia.
 Qed.
